@@ -1281,6 +1281,8 @@ from mlmverif.selfcheck import B, OK  # noqa: E402
 _F = 'chainables/tree_fns.py'
 _U = 'utils/iter_utils.py'
 VARIANTS = [
+    OK('skip-wrapper-yields-through-a-local', 'utils/iter_utils.py',
+       "      yield next(it)\n", "      value = next(it)\n      yield value\n"),
     OK('fetched-flag-reset-at-both-ends', 'utils/iter_utils.py',
        "    while not self.enqueue_done:\n      fetched = False\n      try:", "    fetched = False\n    while not self.enqueue_done:\n      fetched = False\n      try:"),
     B('fetched-flag-initialised-once', 'utils/iter_utils.py',
